@@ -740,6 +740,32 @@ def _register_built_type() -> None:
     get_default_factory().register(VfBuilt())
 
 
+def _register_setup_type() -> None:
+    """Stage type whose builder adds a before-stage 'setup' (one task) when the stage is planned."""
+    from stabilize.models.stage import SyntheticStageOwner
+    from stabilize.stages.builder import StageDefinitionBuilder, get_default_factory
+
+    class VfDeploy(StageDefinitionBuilder):
+        @property
+        def type(self) -> str:
+            return "vtask_deploy"
+
+        def before_stages(self, stage, graph):  # type: ignore[no-untyped-def]
+            setup = StageExecution.create_synthetic(type="vtask", name="setup", parent=stage, owner=SyntheticStageOwner.STAGE_BEFORE, context={"vf": {"t1": {"kind": "ok"}}})
+            setup.tasks = [TaskExecution.create(name="t1", implementing_class="vtask", stage_start=True, stage_end=True)]
+            graph.add(setup)
+
+    get_default_factory().register(VfDeploy())
+
+
+def wl_builder_before() -> Workflow:
+    """p (own task; its builder creates a before-stage at plan time) -> d."""
+    _register_setup_type()
+    p = stage("p")
+    p.type = "vtask_deploy"
+    return workflow([p, stage("d", ["p"])])
+
+
 def wl_diamond_built() -> Workflow:
     """diamond whose join d has no pre-defined tasks: they are built when the stage is planned."""
     _register_built_type()
@@ -990,6 +1016,7 @@ WORKLOADS: dict[str, Callable[[], Workflow]] = {
     "poll2_t2": lambda: wl_poll(2, then_ok=True),
     "diamond_j2": lambda: wl_diamond(join_tasks=2),
     "diamond_built": wl_diamond_built,
+    "builder_before": wl_builder_before,
     "after2": lambda: wl_synthetic("after2"),
     "after2_fail": lambda: wl_synthetic("after2_fail"),
     "after2_failcont": lambda: wl_synthetic("after2_failcont"),
